@@ -533,6 +533,34 @@ def abort_sentinels(seqs, obs, rng, frac=1.0, limit=250):
     return out
 
 
+def abort_sweeps(seqs, obs, rng, limit=200):
+    """Derived scripts: for a call whose abort_if answered False throughout, the answer turns True at a poll the run DID make
+    (a random one of them; with on_metric installed so that a grant is visible).  A poll that was dropped from the code shifts
+    the True answer to a later poll: a retry is then granted, a token spent or a sleep started although an abort was requested."""
+    import copy
+    out = []
+    order = list(range(len(seqs)))
+    rng.shuffle(order)
+    for i in order:
+        s, ob = seqs[i], obs[i]
+        idx = [j for j, (c, o) in enumerate(zip(s["calls"], ob))
+               if c["cfg"]["has_abort"] and not any(c["env"]["abort"]) and o["delivery"][0] != "driver_error"
+               and sum(1 for e in o["trace"] if e[0] == "P") >= 2]
+        if not idx or s.get("derived"):
+            continue
+        j = rng.choice(idx)
+        polls = sum(1 for e in ob[j]["trace"] if e[0] == "P")
+        t = copy.deepcopy(s)
+        t["calls"] = t["calls"][:j + 1]
+        t["calls"][j]["env"]["abort"] = [False] * rng.randrange(1, polls) + [True] * 4
+        t["calls"][j]["cfg"]["has_metric"] = True
+        t["derived"] = "abort-sweep"
+        out.append(t)
+        if len(out) >= limit:
+            break
+    return out
+
+
 def run_runner_check(chk, pid, proj, opts, n_quick=400, n_thorough=6000, extra_seqs=None, oracle_pid=None,
                      keep_result=None, extra_oracle=None, theorems_ok=None):
     import oracles
@@ -549,6 +577,10 @@ def run_runner_check(chk, pid, proj, opts, n_quick=400, n_thorough=6000, extra_s
     if sent:
         seqs += sent
         obs += run_impl(sent, jobs=min(16, common.NPROC))
+    sweeps = abort_sweeps(seqs, obs, chk.rng, limit=200 if chk.tier == "quick" else 2500)
+    if sweeps:
+        seqs += sweeps
+        obs += run_impl(sweeps, jobs=min(16, common.NPROC))
     drv = [(i, o["delivery"]) for i, ob in enumerate(obs) for o in ob if o["delivery"][0] == "driver_error"]
     if drv:
         raise common.DriverError("runner_driver failed on a script: " + str(drv[0][1][1])[-1500:])
@@ -569,7 +601,7 @@ def run_runner_check(chk, pid, proj, opts, n_quick=400, n_thorough=6000, extra_s
         "Retry/AsyncRetry .call/.execute on /repo; non-trivial = some call has >= 2 invocations or does not end in "
         "success; distinct by the full observed trace + delivery",
         samples=[{"script": seqs[i], "observed": obs[i]} for i in ([len(seqs) - 1] if seqs else [])],
-        distribution=st, projection=proj, abort_sentinel_scripts=len(sent),
+        distribution=st, projection=proj, abort_sentinel_scripts=len(sent), abort_sweep_scripts=len(sweeps),
     )
     if errors:
         chk.violation({"kind": "correspondence-error", "what": "cases file did not evaluate", "errors": errors[:3]}, no_input=True)
